@@ -25,9 +25,14 @@ from . import c07_gen as G
 from .common import Driver, Report, lean_prove
 
 PROP = "C07"
-VARIANTS = ["00", "11", "10", "01"]  # alias, hostOverLocal ; "00" = repaired, "11" = as found
-VARIANT_NAME = {"00": "repaired (copied host tables, local over host)", "11": "asIs (shared host tables, host over local)",
-                "10": "shared host tables, local over host", "01": "copied host tables, host over local"}
+# alias, hostOverLocal, blockUse ; "000" = repaired, "111" = as found.  blockUse = a USE statement
+# inside a BLOCK construct is filed in the enclosing code unit
+VARIANTS = ["000", "110", "100", "010", "001", "111", "101", "011"]
+_VN = {"00": "repaired (copied host tables, local over host)", "11": "asIs (shared host tables, host over local)",
+       "10": "shared host tables, local over host", "01": "copied host tables, host over local"}
+VARIANT_NAME = {v: _VN[v[:2]] + ("; USE inside a BLOCK is filed in the enclosing unit" if v[2] == "1"
+                                 else "; USE inside a BLOCK imports nothing into the enclosing unit") for v in VARIANTS}
+UNOBS = "unobserved"
 
 
 def translate():
@@ -74,8 +79,12 @@ def register(F: G.Flat, project):
     for p in project.procedures:
         top[(p.obj if p.obj in ("function", "subroutine") else p.proctype.lower(), p.name.lower())] = p
     objs = {}
+    leaked = set()  # block-local entities / variables FORD files in the enclosing unit
     for sidx, rec in enumerate(F.scopes):
         node = rec["node"]
+        if rec.get("block"):
+            objs[sidx] = None
+            continue
         if rec["parent"] is None:
             key = rec["path"][0]
             obj = top.get(key)
@@ -132,25 +141,91 @@ def register(F: G.Flat, project):
             elif k == "ret":
                 v = obj.retvar
                 readers[i] = (lambda v=v: v.proto[0])
-    return ent_of, readers, objs
+        _register_blocks(F, sidx, obj, ent_of, readers, leaked)
+    return ent_of, readers, objs, leaked
+
+
+def _blocks_of(F, sidx):
+    """the BLOCK scopes in the execution part of code unit `sidx`, in source order (nested ones included)"""
+    out = []
+    for b in F.scopes[sidx]["blocks"]:
+        out.append(b)
+        out += _blocks_of(F, b)
+    return out
+
+
+def _register_blocks(F, sidx, obj, ent_of, readers, leaked):
+    """FORD has no object for a BLOCK.  Whatever the implementation under test nevertheless files
+    in the enclosing unit `obj` beyond the unit's own declarations is matched, by name and in
+    source order, with the block-local declarations: the objects get the block entities' ids, the
+    references they hold become observable (optional slots)."""
+    blocks = _blocks_of(F, sidx)
+    if not blocks:
+        return
+    node = F.scopes[sidx]["node"]
+    extra_t = list(obj.types[len(node["types"]):])
+    extra_a = list(obj.absinterfaces[len(node["absints"]):])
+    extra_i = list(obj.interfaces[len(node["ifaces"]) + len(node["generics"]):])
+    own_vars = {v["name"].lower() for v in node["vars"]}
+    for b in blocks:
+        rec = F.scopes[b]
+        bn = rec["node"]
+        tobj = {}
+        for ti, t in enumerate(bn["types"]):
+            o = next((x for x in extra_t if x.name.lower() == t["name"].lower()), None)
+            if o is not None:
+                extra_t.remove(o)
+                ent_of[id(o)] = rec["local"]["t"][t["name"].lower()]
+                leaked.add(ent_of[id(o)])
+                tobj[ti] = o
+        for a in bn["absints"]:
+            o = next((x for x in extra_a if x.name.lower() == a.lower()), None)
+            if o is not None:
+                extra_a.remove(o)
+                ent_of[id(o)] = rec["local"]["a"][a.lower()]
+                leaked.add(ent_of[id(o)])
+        for a in bn["ifaces"]:
+            o = next((x for x in extra_i if x.name.lower() == a.lower()), None)
+            if o is not None:
+                extra_i.remove(o)
+                ent_of[id(o)] = rec["local"]["p"][a.lower()]
+                leaked.add(ent_of[id(o)])
+        for i in rec["slots"]:
+            g = F.slots[i]["get"]
+            if g[0] == "extends" and g[1] in tobj:
+                readers[i] = (lambda t=tobj[g[1]]: t.extends)
+            elif g[0] == "comp" and g[1] in tobj and g[2] < len(tobj[g[1]].variables):
+                readers[i] = (lambda v=tobj[g[1]].variables[g[2]]: v.proto[0])
+            elif g[0] == "var" and g[1].lower() not in own_vars:
+                v = next((x for x in obj.variables if x.name.lower() == g[1].lower()), None)
+                if v is not None:
+                    leaked.add(f"variable {g[1]}")
+                    readers[i] = (lambda v=v: v.proto[0])
 
 
 def observe(F: G.Flat, project):
     """Run correlate; slot -> ent | None (text) | ('?', description); or the string 'raise'."""
-    ent_of, readers, objs = register(F, project)
     alias_obs = []
+    try:
+        ent_of, readers, objs, leaked = register(F, project)
+    except (StopIteration, KeyError, IndexError, AttributeError) as e:
+        # a unit / entity of the generated (valid) project is missing from FORD's object tree:
+        # the file was not parsed, or a declaration was filed somewhere else
+        return ("crash", f"object tree differs from the project ({type(e).__name__}: {e})"), alias_obs, set()
     try:
         with common.quiet():
             project.correlate()
     except RuntimeError as e:
         if "Could not find interface procedure" in str(e):
-            return "raise", alias_obs
-        raise
+            return "raise", alias_obs, leaked
+        return ("crash", f"{type(e).__name__}: {e}"), alias_obs, leaked
     except AttributeError as e:
         # FortranType.correlate: `proc.procedure.num_lines` of a finaliser that was not found
         if "num_lines" in str(e):
-            return "raise", alias_obs
-        raise
+            return "raise", alias_obs, leaked
+        return ("crash", f"{type(e).__name__}: {e}"), alias_obs, leaked
+    except Exception as e:  # correlate() must not fail on a valid project; reported as a broken tie
+        return ("crash", f"{type(e).__name__}: {e}"), alias_obs, leaked
     obs = {}
     for i, rd in readers.items():
         o = rd()
@@ -161,19 +236,27 @@ def observe(F: G.Flat, project):
         else:
             obs[i] = ("?", f"{type(o).__name__}:{getattr(o, 'name', '')}")
     # direct look at the aliasing the model threads through the traversal
+    for i, sl in enumerate(F.slots):
+        if sl.get("optional") and i not in obs:
+            obs[i] = UNOBS
     for sidx, rec in enumerate(F.scopes):
-        if rec["parent"] is not None:
+        if rec["parent"] is not None and not rec.get("block"):
             c, p = objs[sidx], objs[rec["parent"]]
             alias_obs.append(getattr(c, "all_types", None) is getattr(p, "all_types", 0)
                              and getattr(c, "all_absinterfaces", None) is getattr(p, "all_absinterfaces", 0))
-    return obs, alias_obs
+    return obs, alias_obs, leaked
 
 
 def parse_res(fields):
+    """slot -> ent | None, and under the key "reg" the set of block-local declarations the model
+    says are filed in an enclosing unit"""
     if not fields or fields[0] != "ok":
         raise common.Infra(f"model answered {fields[:2]}")
-    out = {}
+    out = {"reg": set()}
     for f in fields[1:]:
+        if f.startswith("r:"):
+            out["reg"].add(int(f[2:]))
+            continue
         k, v = f.split("=")
         out[int(k)] = None if v == "-" else int(v)
     return out
@@ -207,6 +290,7 @@ def run(tier: str, seed: int, replay: str | None = None) -> int:
     n_cases = 1500 if tier == "quick" else 12000
     n_chain = 400 if tier == "quick" else 3000
     n_ren = 400 if tier == "quick" else 3000
+    n_blk = 350 if tier == "quick" else 3000
     cases = []
     if replay:
         data = json.loads(Path(replay).read_text())
@@ -236,24 +320,45 @@ def run(tier: str, seed: int, replay: str | None = None) -> int:
         P = G.gen_rename_project(rng)
         cases.append((P, G.render_project(P, rng)))
 
+    for k in range(n_blk):
+        # BLOCK constructs declaring / use-associating names that also exist outside them
+        P = G.gen_block_project(rng)
+        cases.append((P, G.render_project(P, rng)))
+
     flats = [G.Flat(P) for P, _ in cases]
     reqs = []
+    req_at = []  # per case: variant -> index of its request (a project without a USE inside a BLOCK
+    #              is the same input for both values of the third switch)
     for F in flats:
+        has_block_use = any(rec.get("block") and rec["node"]["uses"] for rec in F.scopes)
+        at = {}
         for v in VARIANTS:
+            if v[2] == "1" and not has_block_use:
+                at[v] = at[v[:2] + "0"]
+                continue
+            at[v] = len(reqs)
             reqs.append(["c07.run", v] + F.tokens)
+        at["spec"] = len(reqs)
         reqs.append(["c07.spec"] + F.tokens)
+        req_at.append(at)
     answers = drv.batch(reqs)
 
     mism = {v: 0 for v in VARIANTS}
     first_mism = {v: None for v in VARIANTS}
     hist = {"cases": 0, "raise": 0, "slots": 0, "slots_resolved": 0, "slots_text": 0, "oracle_skipped_not_fortran": 0,
-            "oracle_checked": 0, "oracle_fail": 0, "alias_pairs": 0, "alias_pairs_shared": 0}
+            "oracle_checked": 0, "oracle_fail": 0, "alias_pairs": 0, "alias_pairs_shared": 0,
+            "crash": 0, "block_slots_recorded_by_ford": 0, "block_declarations_filed_in_enclosing_unit": 0}
     kinds_hist: dict[str, int] = {}
     reuse_hist = {"sibling_same_type_name": 0, "inner_proc_shadows_host": 0, "two_modules_same_name": 0,
                   "module_vs_external": 0, "case_only_difference": 0, "undeclared_name_referenced": 0,
                   "use_rename_without_only": 0, "use_rename_with_only": 0, "renamed_away_name_referenced_in_scope": 0,
                   "renamed_away_name_referenced_expect_text": 0, "renamed_away_name_referenced_expect_other_entity": 0,
-                  "variants_distinguishing_case": 0}
+                  "variants_distinguishing_case": 0,
+                  "projects_with_block": 0, "blocks": 0, "nested_blocks": 0, "block_use_statements": 0,
+                  "block_local_name_also_visible_outside": 0, "block_local_name_referenced_outside": 0,
+                  "block_local_name_referenced_outside_expect_text": 0,
+                  "block_local_name_referenced_outside_expect_other_entity": 0,
+                  "block_used_name_referenced_outside": 0, "block_use_distinguishing_case": 0}
     distinct = set()
     samples = []
     spec_diff = 0
@@ -261,21 +366,33 @@ def run(tier: str, seed: int, replay: str | None = None) -> int:
     pending = []
     with common.scratch_dir() as d:
         for k, ((P, files), F) in enumerate(zip(cases, flats)):
-            base = k * (len(VARIANTS) + 1)
-            model = {v: parse_res(answers[base + j]) for j, v in enumerate(VARIANTS)}
-            spec = parse_res(answers[base + len(VARIANTS)])
+            parsed = {}
+            for v in VARIANTS + ["spec"]:
+                if req_at[k][v] not in parsed:
+                    parsed[req_at[k][v]] = parse_res(answers[req_at[k][v]])
+            model = {v: parsed[req_at[k][v]] for v in VARIANTS}
+            spec = parsed[req_at[k]["spec"]]
             exp, where, frames = G.oracle(F)
             project = build_ford(ford, d, files)
-            obs, alias_obs = observe(F, project)
+            obs, alias_obs, leaked = observe(F, project)
             hist["cases"] += 1
             hist["alias_pairs"] += len(alias_obs)
             hist["alias_pairs_shared"] += sum(alias_obs)
             _reuse_stats(F, frames, reuse_hist)
             _rename_stats(F, exp, reuse_hist)
-            if len({json.dumps(sorted(model[v].items())) for v in VARIANTS}) > 1:
+            _block_stats(F, frames, exp, reuse_hist)
+
+            def _key(m):
+                return json.dumps(sorted((str(a), sorted(b) if isinstance(b, set) else b) for a, b in m.items()))
+
+            if len({_key(model[v]) for v in VARIANTS}) > 1:
                 reuse_hist["variants_distinguishing_case"] += 1
+            if _key(model["000"]) != _key(model["001"]):
+                reuse_hist["block_use_distinguishing_case"] += 1
             # Lean spec vs python oracle (both independent of the mechanism)
             for i, e in exp.items():
+                if F.slots[i].get("optional"):
+                    continue  # references inside a BLOCK are not part of the model's encoding
                 if e != G.SKIP and not F.slots[i].get("ctor") and spec.get(i, "missing") != e:
                     spec_diff += 1
                     rep.tie_broken(f"oracle cross-check: Lean spec {spec.get(i)} vs harness oracle {e} on slot {i} of case {k}",
@@ -289,13 +406,40 @@ def run(tier: str, seed: int, replay: str | None = None) -> int:
                         first_mism[v] = first_mism[v] or {"stream": "reuse", "project": P, "files": files,
                                                           "why": "FORD raised (unknown specific procedure / finaliser), model resolves all of them"}
                 continue
+            if isinstance(obs, tuple) and obs[0] == "crash":
+                # correlate() failed on a valid project: no variant of the model predicts that
+                hist["crash"] += 1
+                for v in VARIANTS:
+                    mism[v] += 1
+                    first_mism[v] = first_mism[v] or {"stream": "reuse", "project": P, "files": files,
+                                                      "why": f"parse / Project.correlate() failed: {obs[1]}"}
+                continue
+            hist["block_declarations_filed_in_enclosing_unit"] += len(leaked)
             for v in VARIANTS:
                 if any(model[v][i] is None for i, sl in enumerate(F.slots) if sl.get("must")):
                     mism[v] += 1
                     first_mism[v] = first_mism[v] or {"stream": "reuse", "project": P, "files": files,
                                                       "why": "model predicts the exception for an unknown specific procedure / finaliser, FORD did not raise"}
                     continue
+                # the parse step: which block-local declarations are filed in the enclosing unit
+                if {x for x in leaked if isinstance(x, int)} != model[v]["reg"] or any(isinstance(x, str) for x in leaked):
+                    mism[v] += 1
+                    if first_mism[v] is None:
+                        first_mism[v] = {"stream": "reuse", "project": P, "files": files,
+                                         "why": f"model variant {v}: block-local declarations filed in the enclosing unit "
+                                                f"{sorted(describe(F, e) for e in model[v]['reg'])}, FORD files "
+                                                f"{sorted(describe(F, e) if isinstance(e, int) else e for e in leaked)}"}
+                    continue
                 for i in range(len(F.slots)):
+                    if F.slots[i].get("optional"):
+                        if obs.get(i, UNOBS) == UNOBS:
+                            continue
+                        # the model: FORD records no reference inside a BLOCK
+                        mism[v] += 1
+                        if first_mism[v] is None:
+                            first_mism[v] = case_of(P, files, F, i, None, obs.get(i), f"model variant {v}: no reference is recorded "
+                                                    "inside a BLOCK; FORD records one")
+                        break
                     if model[v].get(i, "missing") != obs.get(i, "unobserved"):
                         mism[v] += 1
                         if first_mism[v] is None:
@@ -304,6 +448,10 @@ def run(tier: str, seed: int, replay: str | None = None) -> int:
             if len(F.slots) >= 3:
                 distinct.add(common.digest(F.tokens))
             for i, sl in enumerate(F.slots):
+                if sl.get("optional"):
+                    if obs.get(i, UNOBS) == UNOBS:
+                        continue
+                    hist["block_slots_recorded_by_ford"] += 1
                 hist["slots"] += 1
                 kinds_hist[sl["get"][0]] = kinds_hist.get(sl["get"][0], 0) + 1
                 o = obs.get(i)
@@ -318,13 +466,12 @@ def run(tier: str, seed: int, replay: str | None = None) -> int:
                 hist["oracle_checked"] += 1
                 if o != e:
                     hist["oracle_fail"] += 1
-                    pending.append((k, i, e, o, {v: model[v].get(i, "missing") for v in VARIANTS},
-                                    G.classify(F, frames, where, i, o if not isinstance(o, tuple) else None)))
+                    pending.append((k, i, e, o, {v: model[v].get(i, "missing") for v in VARIANTS}, (frames, where)))
             if len(samples) < 2 and len(F.slots) >= 4:
                 samples.append({"files": files, "slots": [
                     {"owner": "/".join(n for _, n in F.scopes[sl["scope"]]["path"]), "what": sl["what"], "name": sl["name"],
                      "ford": describe(F, obs.get(i)), "expected": "not Fortran" if exp[i] == G.SKIP else describe(F, exp[i])}
-                    for i, sl in enumerate(F.slots)][:12]})
+                    for i, sl in enumerate(F.slots) if obs.get(i, UNOBS) != UNOBS][:12]})
     drv.close()
     agreeing = [v for v in VARIANTS if mism[v] == 0]
     variant = agreeing[0] if agreeing else None
@@ -336,9 +483,13 @@ def run(tier: str, seed: int, replay: str | None = None) -> int:
         # a variant that is not excluded by any case is only decided if some case distinguishes them
         if len(agreeing) > 1 and reuse_hist["variants_distinguishing_case"] == 0:
             rep.tie_broken("correspondence reuse: no generated case distinguishes the model variants")
+        if variant[:2] + "0" in agreeing and variant[:2] + "1" in agreeing and not replay:
+            rep.tie_broken("correspondence reuse: no generated case decides whether a USE statement inside a BLOCK "
+                           "is filed in the enclosing unit")
         try:
             from translate import c07 as T
             tv = T.code_variant()
+            tv = None if tv is None else tv + T.block_variant()
             if tv is not None and tv != variant and len(agreeing) == 1:
                 rep.tie_broken(f"translator reads variant {tv} from the source of FortranCodeUnit.correlate, "
                                f"differential execution decides {variant}")
@@ -349,7 +500,8 @@ def run(tier: str, seed: int, replay: str | None = None) -> int:
     # when none agrees everywhere) puts exactly FORD's wrong entity into that slot - i.e. the
     # failure is the one the defect switches of the model reproduce.  Everything else is new.
     vref = variant if variant is not None else min(VARIANTS, key=lambda v: mism[v])
-    for k, i, e, o, mv, cls in pending:
+    for k, i, e, o, mv, (frames, where) in pending:
+        cls = G.classify(flats[k], frames, where, i, o if not isinstance(o, tuple) else None, block_use=(vref[2] == "1"))
         if cls is not None and mv[vref] != o:
             cls = None
         if cls == "C07-shared-type-tables-leak" and vref[0] == "0":
@@ -380,9 +532,13 @@ def run(tier: str, seed: int, replay: str | None = None) -> int:
         random_cases=n_cases,
         chain_cases=n_chain,
         rename_cases=n_ren,
+        block_cases=n_blk,
     )
     rep.assumptions += [
-        "implicit typing, IMPORT statements, BLOCK-local declarations, submodules, common blocks and namelists are outside the abstract projects",
+        "implicit typing, IMPORT statements, submodules, common blocks and namelists are outside the abstract projects",
+        "BLOCK constructs: derived types without CONTAINS part, abstract interfaces, interface blocks, variables, USE statements "
+        "and nested BLOCKs; FORD has no object for a BLOCK and records no reference inside it - such references are evaluated "
+        "(oracle: the BLOCK's own frame first) only when the implementation under test does record them",
         "all abstract modules have default accessibility PUBLIC (accessibility is C04/C06)",
         "interface bodies declare nothing and are not scopes of the abstract project",
         "the threaded tables of the model stand for the single dict object FORD shares between a unit and its nested units; "
@@ -396,6 +552,52 @@ def _render_units(P):
     for u in P["units"]:
         G.render_scope(u, out)
     return out
+
+
+def _block_stats(F, frames, exp, h):
+    """how often BLOCK constructs meet the names around them"""
+    blocks = [k for k, rec in enumerate(F.scopes) if rec.get("block")]
+    if not blocks:
+        return
+    h["projects_with_block"] += 1
+    for b in blocks:
+        rec = F.scopes[b]
+        h["blocks"] += 1
+        if F.scopes[rec["parent"]].get("block"):
+            h["nested_blocks"] += 1
+        h["block_use_statements"] += len(rec["node"]["uses"])
+        owner = rec["owner"]
+        local = {(ns, n) for ns in "tpa" for n in rec["local"][ns]}
+        used = {(ns, n) for ns in "tpa" for n in F.use_frames.get(b, {}).get(ns, {})}
+        # the name is also visible from the enclosing unit (shadowing inside the BLOCK)
+        s = owner
+        seen = set()
+        while s is not None:
+            for ns, n in local:
+                if n in frames[s]["t" if ns == "t" else "p"] or (ns != "t" and n in frames[s]["a"]):
+                    seen.add((ns, n))
+            s = F.scopes[s]["parent"]
+        h["block_local_name_also_visible_outside"] += len(seen)
+        # references outside the BLOCK (in the owning unit or in units nested in it) to a name the BLOCK declares / uses
+        inside = set()
+        stack = [owner]
+        while stack:
+            x = stack.pop()
+            inside.add(x)
+            stack += F.scopes[x]["kids"]
+        for i, sl in enumerate(F.slots):
+            if sl["scope"] not in inside or sl.get("ctor") or sl.get("optional"):
+                continue
+            ns = "t" if sl["kind"] == "ty" else "p"
+            n = sl["name"].lower()
+            if (ns, n) in local or (ns == "p" and ("a", n) in local):
+                h["block_local_name_referenced_outside"] += 1
+                if exp[i] is None:
+                    h["block_local_name_referenced_outside_expect_text"] += 1
+                elif exp[i] != G.SKIP:
+                    h["block_local_name_referenced_outside_expect_other_entity"] += 1
+            if (ns, n) in used or (ns == "p" and ("a", n) in used):
+                h["block_used_name_referenced_outside"] += 1
 
 
 def _rename_stats(F, exp, h):
